@@ -15,18 +15,27 @@ RULE = ("case = world (22 % of the generated cases: a fresh chain started from a
         "messages (MsgEditSudoers add/remove/unknown action/malformed contract, MsgChangeRoot, MsgEditOracleParams, "
         "MsgEditInflationParams valid/invalid, MsgToggleInflation, MsgSudoSetDenomMetadata valid/invalid, MsgExec trees up "
         "to depth 2) signed by root / listed / removed / former-root / unrelated accounts, each delivered through DeliverTx; "
-        "6 fixed opener histories first; non-trivial = after an accepted sudoers change, a later privileged message comes from "
-        "an account whose permission differs from its initial one (stale-permission shape) or sits inside a MsgExec; "
+        "actors 0-5 are key accounts, actors 6-7 two reflect.wasm contract instances of the case owned by key accounts (any actor "
+        "can be root - 1 case in 7 a contract -, listed, granter, grantee); about a third of the txs carry a MsgExecuteContract "
+        "whose contract dispatches Stargate messages through app/wasmext handleSdkMessage: its own privileged messages, leaves "
+        "in somebody else's name, MsgExec with itself as grantee (inner signer itself / granter / sudoer without grant), "
+        "MsgExec with a SPOOFED grantee (the sudoer named by the inner message), nested execs, contract-calls-contract, exec "
+        "around wasm, called by owner or not; txs needing a contract's signature are signed with a foreign key; "
+        "8 fixed opener histories first; non-trivial = after an accepted sudoers change, a later privileged message comes from "
+        "an account whose permission differs from its initial one (stale-permission shape) or sits inside a carrier, or a "
+        "contract dispatches a MsgExec / a leaf in a foreign name / its own message as a current sudoer; "
         "distinct = distinct input")
 ASSUMPTIONS = [
     "payload validity of a gated message (valid / refused by ValidateBasic / refused by the handler) is a generator label; a wrong label shows as a mismatch",
     "authz grants are fixed per history (saved before the first tx, GenericAuthorization without expiry)",
-    "the tx is correctly signed by every top-level signer (signature / sequence failures are out of scope)",
+    "the tx is correctly signed by every top-level signer that is a key account (signature / sequence failures are out of scope; a contract cannot sign)",
+    "contracts are re-dispatching contracts (reflect.wasm: only the owner may call, at least one message, a failing message fails the call); other carriers (gov proposals, ICA host) are out of scope",
 ]
 TRUSTED = ["sha256 digests over the raw KV iteration of the sudo / oracle / inflation stores and the bank denom-metadata prefix"]
 
 _GK = {"oracle": "GOracle", "infl_edit": "GInflEdit", "infl_toggle": "GInflToggle", "meta": "GMeta"}
-_MK = {"edit": "KEdit", "root": "KChangeRoot", "exec": "KExec"}
+_MK = {"edit": "KEdit", "root": "KChangeRoot", "exec": "KExec", "wasm": "KWasm"}
+_NKEYS = 6  # ids 0..5 key accounts, 6 and 7 the two contracts of the case
 
 
 def _nats(xs):
@@ -46,6 +55,8 @@ def _msg(m):
         return "ChangeRoot %d %d" % (m["sender"], m.get("new", 0))
     if t == "gated":
         return "Gated %s %d %s" % (_GK[m["k"]], m["sender"], _b(m.get("pv", 0) == 0))
+    if t == "wasm":
+        return "Wasm %d %d [%s]" % (m["sender"], m.get("c", _NKEYS), "; ".join("(%s)" % _msg(x) for x in (m.get("msgs") or [])))
     return "Exec %d [%s]" % (m.get("grantee", 0), "; ".join("(%s)" % _msg(x) for x in (m.get("msgs") or [])))
 
 
@@ -55,10 +66,13 @@ def _kind(k):
 
 def to_coq_case(rec):
     i = rec["input"]
-    w = "{| w_root := %d; w_contracts := %s; w_grants := [%s]; w_raw := %s |}" % (
+    owners = i.get("owners") or [0, 0]
+    w = "{| w_root := %d; w_contracts := %s; w_grants := [%s]; w_raw := %s; w_owners := [%s]; w_setup_ok := %s |}" % (
         i["root"], _nats(i.get("contracts") or []),
         "; ".join("{| g_granter := %d; g_grantee := %d; g_kind := %s |}" % (g["granter"], g["grantee"], _kind(g["kind"]))
-                  for g in (i.get("grants") or [])), _b(i.get("genesis")))
+                  for g in (i.get("grants") or [])), _b(i.get("genesis")),
+        "; ".join("(%d, %d)" % (_NKEYS + k, int(o)) for k, o in enumerate(owners)),
+        _b(all(rec.get("grants_ok", []))))
     steps = []
     for tx, o in zip(i["txs"], rec["obs"]):
         ob = ("{| o_ok := %s; o_root := %d; o_contracts := %s; o_same_sudo := %s; o_same_oracle := %s; "
@@ -69,8 +83,40 @@ def to_coq_case(rec):
     return "(%s, [%s])" % (w, ";\n    ".join(steps))
 
 
+def _nodes(m):
+    out = [m]
+    for x in m.get("msgs") or []:
+        out += _nodes(x)
+    return out
+
+
+def _carrier_shapes(m, sudoers):
+    """histogram keys for the wasm carrier class: who dispatches what, in whose name"""
+    ks = []
+    for n in _nodes(m):
+        if n["t"] != "wasm":
+            continue
+        c = n.get("c", _NKEYS)
+        ks.append("wasm:by-sudoer-contract" if c in sudoers else "wasm:by-stranger-contract")
+        for ch in n.get("msgs") or []:
+            if ch["t"] == "exec":
+                g = ch.get("grantee", 0)
+                inner = [l["sender"] for l in _leaves(ch)]
+                if g != c:
+                    ks.append("wasm>exec:spoofed-grantee" + ("=sudoer" if g in sudoers else ""))
+                elif any(s != c for s in inner):
+                    ks.append("wasm>exec:own-grantee,foreign-inner-signer")
+                else:
+                    ks.append("wasm>exec:own-grantee,own-inner")
+            elif ch["t"] == "wasm":
+                ks.append("wasm>wasm")
+            else:
+                ks.append("wasm>leaf:own" if ch["sender"] == c else "wasm>leaf:foreign-signer")
+    return ks
+
+
 def _leaves(m):
-    if m["t"] == "exec":
+    if m["t"] in ("exec", "wasm"):
         out = []
         for x in m.get("msgs") or []:
             out += _leaves(x)
@@ -85,12 +131,17 @@ def nontrivial(rec):
     changed = False
     for tx, o in zip(i["txs"], rec["obs"]):
         for m in tx:
-            wrapped = m["t"] == "exec"
+            wrapped = m["t"] in ("exec", "wasm")
             for l in _leaves(m):
                 s = l["sender"]
                 if changed and ((s in cur) != (s in init)):
                     return True
                 if wrapped and changed:
+                    return True
+            # message carriers in combination: a contract dispatching a MsgExec, or dispatching in the name
+            # of a current sudoer, or a sudoer contract dispatching its own message
+            for k in _carrier_shapes(m, cur):
+                if k.startswith("wasm>exec") or k in ("wasm>leaf:foreign-signer", "wasm:by-sudoer-contract"):
                     return True
         new = set(o["contracts"]) | {o["root"]}
         if new != cur or not o["same_sudo"]:
@@ -102,7 +153,19 @@ def nontrivial(rec):
 def classify(rec):
     ks = ["sudoers-from-genesis" if rec["input"].get("genesis") else "sudoers-written-canonical", "txs=%d" % len(rec["input"]["txs"]), "grants=%d" % len(rec["input"].get("grants") or []),
           "contracts=%d" % len(set(rec["input"].get("contracts") or []))]
+    cur = set(rec["input"].get("contracts") or []) | {rec["input"]["root"]}
+    if rec["input"]["root"] >= _NKEYS:
+        ks.append("root-is-a-contract")
     for tx, o in zip(rec["input"]["txs"], rec["obs"]):
+        for m in tx:
+            for k in _carrier_shapes(m, cur):
+                ks.append(k)
+                ks.append(k + (":accepted" if o["ok"] else ":rejected"))
+            if any(n["t"] == "wasm" for n in _nodes(m)):
+                ks.append("msg:wasm")
+            if m["t"] != "wasm" and m.get("sender" if m["t"] != "exec" else "grantee", 0) >= _NKEYS:
+                ks.append("tx-needing-a-contract-signature")
+        cur = set(o["contracts"]) | {o["root"]}
         ks.append("tx:%s" % ("accepted" if o["ok"] else "rejected"))
         ks.append("tx_msgs=%d" % len(tx))
         if any(m["t"] == "exec" for m in tx):
@@ -154,8 +217,15 @@ def shrink_candidates(inp):
 MANIFEST = {
     "level_claimed": {
         "category": "proof",
-        "text": ("Coq theorems over a model of the sudo permission set, the six handlers it gates, authz MsgExec dispatch (any nesting, "
-                 "any grants) and baseapp's all-or-nothing tx execution, for EVERY state, message tree and history: only the root in "
+        "text": ("Coq theorems over a model of the sudo permission set, the six handlers it gates, the two message carriers authz MsgExec "
+                 "(any nesting, any grants) and contract dispatch through app/wasmext handleSdkMessage (MsgExecuteContract on a re-dispatching "
+                 "contract; carriers nested in any order), and baseapp's all-or-nothing tx execution, for EVERY state, message tree and "
+                 "history: every message of an accepted tx, wrappers included, is presented by the principal its carrier authenticated, so the "
+                 "sender of every executed privileged leaf is a current sudoer AND signed the tx / issued a grant / is a contract the tx "
+                 "executes (C16_accepted_tree_well_authorised, C16_privileged_leaf_sudoer_and_backed, C16_gated_in_wasm_iff, "
+                 "C16_gated_in_wasm_exec_iff; the variant whose wasm handler skips the signer guard for MsgExec wrappers is refuted: "
+                 "C16_unguarded_wrapper_refuted, and Gen/C16Oblig.v C16_wasm_dispatch_guards_every_branch re-checks on every run that the "
+                 "tree is the guarded one); only the root in "
                  "force edits the sudoers (C16_root_only_edits, C16_sudoers_change_only_by_root); a gated operation succeeds iff its "
                  "sender is root or a listed contract and the payload is valid, and under MsgExec iff additionally the authz condition "
                  "holds for the INNER signer (C16_gated_iff_permitted, C16_gated_in_exec_iff, C16_every_executed_leaf_authorised); a "
@@ -172,7 +242,8 @@ MANIFEST = {
                    "history (GenericAuthorization, no expiry); payload validity of gated messages is a generator label checked by the "
                    "correspondence; contents of the oracle/inflation/metadata values are abstracted to 'written or not' (digests). "
                    "Trusted: Coq kernel + vm_compute; go/ast extractor harness/gen/c16 (name-based package-local call graph, no type "
-                   "information; gate functions read symbolically into their accept condition); the driver's sha256 digests over raw KV iteration and address->id canonicalisation. A write placed before "
+                   "information; gate functions read symbolically into their accept condition; app/wasmext paths from DispatchMsg to the router "
+                   "by an abstract walk that recognises the signer guard syntactically, polarity checked only dynamically); the driver's sha256 digests over raw KV iteration and address->id canonicalisation. A write placed before "
                    "the permission check is caught by the generated-facts obligation only (it is invisible through DeliverTx)."),
     "technique": "Coq proof (induction over message trees and histories) + generated gate-site facts + differential correspondence on DeliverTx traces",
 }
